@@ -171,3 +171,55 @@ PROPS["C15"] = dict(
     modelled=["channels as (queue length, connected); Select::ready as a boolean choice when both ready"],
     assumptions=["the event sender may stay alive after the cache (a watcher lets go only when a send fails)"],
 )
+
+SYS_MODEL_FILES = ["Ref/Load.v", "Ref/Sys.v", "Corr/Common.v", "Corr/SysCheck.v"]
+SYS_TRUSTED = [
+    "harness universe (harness/src/world.rs): the in-memory Source, the asset types, the script interpreter, "
+    "token/drop logging, the trace canonicalisation (drops compared as a set per operation)",
+    "the reload-pass order is taken from the implementation (hook PASS_LOG) and checked by the model to be a "
+    "legal order (right set, no duplicates, dependencies first unless the look-ups are cyclic)",
+    "Settle barrier: hook counters EVENTS_HANDLED / PASSES_RUN",
+]
+SYS_RULE = ("sysdiff: seeded operation histories (load, load_owned, get_cached, get_or_insert, contains, remove, "
+            "take, clear, source edits, fault plans, notifications, hot_reload, enhance_hot_reloading, reload "
+            "ids / flags / watchers) over AssetCache (with and without reloader), LocalAssetCache and AnyCache "
+            "views, on a mostly-valid generated source with Compound scripts nesting load / get_cached / "
+            "load_owned / no_record / try / helper threads / get_or_insert / failing and panicking loaders, plus "
+            "targeted bundles (get_or_insert after load/remove, rewire+edit batches); each operation's result, "
+            "I/O trace, loader tokens and dropped tokens are compared with Ref.Sys.run.  Non-trivial = at "
+            "least two loads, one successful, and one of remove/take/clear/write/hot_reload; distinct = "
+            "distinct printed case.")
+
+PROPS["C10"] = dict(
+    technique="Coq theorems on the executable system model Ref.Sys: a non-reloadable entry survives every "
+              "operation (nested loads, reload passes in any order, enhance, polling) unchanged, for all "
+              "histories (induction over operations on top of `loads only add entries`, proved by fuel "
+              "induction); CacheEntry::new / add_any / reload_untyped tied by rs2v; whole-history "
+              "differential correspondence (sysdiff) with the monitor `non-reloadable entries keep value, "
+              "token and reload id`",
+    level_text="Theorems (Props/C10.v, closed under the global context): in the printed code an entry is "
+               "reloadable only if its type is hot-reloaded and the cache has a reloader, get_or_insert "
+               "never creates one, and a reload returns before loading or writing when the entry is not "
+               "reloadable; in the model every non-reloadable entry keeps value, token and reload id "
+               "through any operation that does not remove it, hence through every history (incl. after "
+               "load / load_owned / remove / clear of the same key).  The model is the implementation's "
+               "behaviour as far as sysdiff explores.",
+    level_note="Trusted: Coq kernel+VM, rs2v, the harness universe and hooks (pass order, settle barrier); "
+               "Handle::get's reference validity is the Rust-level consequence (not modelled).",
+    gen=["Entry", "Anycache"],
+    model_files=SYS_MODEL_FILES,
+    model_targets=["Corr/SysCheck.vo"],
+    proof_files=["Proofs/SysGrows.v", "Proofs/SysStatic.v", "Tie/Static.v", "Props/C10.v"],
+    proof_targets=["Props/C10.vo"],
+    props_module="Props.C10",
+    theorems=["C10_code_decides_reloadability_as_modelled", "C10_no_reloader_or_opted_out_is_static",
+              "C10_get_or_insert_is_static", "C10_static_never_written",
+              "C10_static_never_written_in_any_history"],
+    engines=[("sysdiff", ["--mode", "all"])],
+    relevant_classes=["non-reloadable-rewritten"],
+    rule=SYS_RULE,
+    trusted_base=SYS_TRUSTED,
+    modelled=["the whole sequential system as Ref.Sys.step (cache, source, loaders, scripts, recording, "
+              "dependency graph, reload passes)"],
+    assumptions=["operations are issued sequentially (one test thread + the reloader it waits for)"],
+)
